@@ -146,6 +146,37 @@ theorem corrupted_log_partial (cfg : Cfg) (before after : List Item)
     readAll_damaged cfg before after gb ga _ (nl_not_mem_set (nl_not_mem_msgText p) h10)]
   rcases readLine_set_guarded cfg p g i v hi h10 h13 hh h5 with h | h <;> simp [h]
 
+/-- Partial result 1′: position 5 is covered as well once one uses what amino's
+`UnmarshalSized` really does first — it checks the payload's byte-length prefix
+(`hsz`: whatever `bodyOK` accepts passes `sizedOK`; the driver's `bodyOK` IS `sizedOK`).
+Damage at position 5 leaves the low four bits of the first payload byte — the first
+byte of that length prefix — unchanged, and two prefixes that agree there and describe
+the same tail are equal. Remaining exceptions: '#' in first position (finding) and CR. -/
+theorem corruption_sized_partial (cfg : Cfg) (hsz : ∀ q, cfg.bodyOK q = true → sizedOK q = true)
+    (p : Bytes) (g : GoodPayload cfg p) (i : Nat) (v : UInt8)
+    (hi : i < (msgText p).length) (h10 : v ≠ 10) (h13 : v ≠ 13) (hh : ¬ (i = 0 ∧ v = 35)) :
+    readLine cfg ((msgText p).set i v) = .corrupt ∨ readLine cfg ((msgText p).set i v) = .msg p :=
+  readLine_set_sized cfg hsz p g i v hi h10 h13 hh
+
+/-- … and inside a whole log (reader stopping at the first error) -/
+theorem corrupted_log_sized_partial (cfg : Cfg) (hsz : ∀ q, cfg.bodyOK q = true → sizedOK q = true)
+    (before after : List Item)
+    (gb : ∀ i ∈ before, GoodItem cfg i) (ga : ∀ i ∈ after, GoodItem cfg i)
+    (p : Bytes) (g : GoodPayload cfg p) (i : Nat) (v : UInt8)
+    (hi : i < (msgText p).length) (h10 : v ≠ 10) (h13 : v ≠ 13) (hh : ¬ (i = 0 ∧ v = 35)) :
+    readAll cfg ((encodeAll (before ++ .msg p :: after)).set ((encodeAll before).length + i) v)
+        = (before, .corrupt) ∨
+    readAll cfg ((encodeAll (before ++ .msg p :: after)).set ((encodeAll before).length + i) v)
+        = (before ++ .msg p :: after, .eof) := by
+  rw [set_in_line before after p i v hi,
+    readAll_damaged cfg before after gb ga _ (nl_not_mem_set (nl_not_mem_msgText p) h10)]
+  rcases readLine_set_sized cfg hsz p g i v hi h10 h13 hh with h | h <;> simp [h]
+
+/-- `hsz` holds for the configuration the driver runs (and the guard is satisfiable at position 5) -/
+example : (∀ q, (⟨1000, sizedOK⟩ : Cfg).bodyOK q = true → sizedOK q = true) ∧
+    GoodPayload ⟨1000, sizedOK⟩ [3, 1, 2, 3] ∧ (5 : Nat) < (msgText [3, 1, 2, 3]).length :=
+  ⟨fun _ h => h, ⟨by decide, by decide, by decide⟩, by decide⟩
+
 /-- Partial result 2: whatever bytes a line consists of, if the reader accepts it as
 message `p'` then the line base64-decodes to `crc ‖ p'` with `crc = crc32c p'`, `p'`
 is non-empty, within the limit and amino-decodable. So an altered message can only
